@@ -78,5 +78,6 @@ func (tfo *TemplateFileOp) CloneWith(ctx ActionContext) Action {
 	return &TemplateFileOp{
 		File:   ctx.TemplateEngine().RenderLenient(tfo.File, ss),
 		Output: ctx.TemplateEngine().RenderLenient(tfo.Output, ss),
+		Path:   safeRenderStrPointer(tfo.Path, ctx.TemplateEngine(), ss),
 	}
 }
